@@ -131,6 +131,10 @@ def directive_texts():
 
 
 def run(ctx):
+    # statements that are large in one dimension (long lists, chains, many tokens, deep nesting, many statements): the property has no size bound
+    for s in [s for s in gen.scale_texts(ctx.rng)]:
+        oracle(ctx, s)
+    ctx.count('scale texts')
     rng = ctx.rng
     ins = [c['input'] for c in streams.corpus('C04')]
     ins += directive_texts()
